@@ -9,6 +9,7 @@ import (
 	"sync"
 
 	"honnef.co/go/tools/go/loader"
+	"honnef.co/go/tools/internal/verifsim"
 
 	"golang.org/x/tools/go/packages"
 )
@@ -39,6 +40,16 @@ type result struct {
 
 // Graph replaces loader.Graph in package runner.
 func Graph(cfg *packages.Config, patterns ...string) ([]*loader.PackageSpec, error) {
+	// the working directory of a simulated process (linter.run leaves
+	// packages.Config.Dir empty: the OS process' cwd)
+	if ctx := verifsim.CurProcContext(); ctx != nil && ctx.Dir != "" && (cfg == nil || cfg.Dir == "") {
+		c2 := packages.Config{}
+		if cfg != nil {
+			c2 = *cfg
+		}
+		c2.Dir = ctx.Dir
+		cfg = &c2
+	}
 	if State == "" {
 		return loader.Graph(cfg, patterns...)
 	}
